@@ -416,9 +416,10 @@ class ShuffleSplitWiring(Contract):
     def configs(self, tier):
         out = [{"G": 2, "n_splits": 1, "balancing": 1, "test": 1}, {"G": 3, "n_splits": 1, "balancing": 2, "test": 1}, {"G": 3, "n_splits": 2, "balancing": 1, "test": 2}]
         if tier == "thorough":
-            out += [{"G": 3, "n_splits": 2, "balancing": 2, "test": 2}, {"G": 4, "n_splits": 1, "balancing": 2, "test": 2}, {"G": 3, "n_splits": 1, "balancing": 3, "test": 1}]
-            # (G=4 with TWO splits of two candidates was dropped: 17 minutes and one obligation left open by z3 - a slow,
-            # unstable query; the single-split form carries the same clause for four occupied blocks)
+            out += [{"G": 3, "n_splits": 1, "balancing": 3, "test": 1}]
+            # dropped after the thorough sweeps of rounds 8/9: G=3 with two splits of two candidates and every G=4 form
+            # are slow, solver-unstable queries (17 minutes / `unknown` on a busy machine) - a verdict that can flip with
+            # the load is worse than no verdict; the quick configs carry the same clause for G = 2, 3
         return out
 
     def setup(self, B, cfg):
